@@ -381,6 +381,6 @@ def run(repo: Repo, rep: Report, tier: str) -> None:
     from .c08 import generated_globals_rule
 
     shape_rule(repo, rep, tier, generated_globals_rule, "C06.R10")
+    from .memo import memo_rule
 
-
-
+    memo_rule(repo, rep, "C06.R12")
